@@ -39,11 +39,11 @@ PIN = {
 def run(index, rep, db=None):
     db = db or build_all(index)
     rep.note_analysed("optimizer_templates", len(db.templates))
-    obj(index, db, rep)
-    consumption_sum(db, rep)
-    caps(db, rep)
-    animal(db, rep)
-    read(index, rep)
+    rep.guard(obj, index, db, rep)
+    rep.guard(consumption_sum, db, rep)
+    rep.guard(caps, db, rep)
+    rep.guard(animal, db, rep)
+    rep.guard(read, index, rep)
     return db
 
 
